@@ -279,6 +279,8 @@ def main(argv=None):
             inconclusive.append({'cfg': cfg.get('key'), 'why': 'exploration budget exhausted'})
         if r['cut'] and not cfg.get('allow_cut'):
             inconclusive.append({'cfg': cfg.get('key'), 'why': '%d paths cut by harness bound' % r['cut']})
+        confirmed_keys = set(finding_key(cfg, o) for o in r['obligations']
+                             if o['verdict'] == 'sat' and (o.get('replay') or {}).get('reproduced'))
         for ob in r['obligations']:
             n_obl += 1
             stretch = bool((ob.get('info') or {}).get('stretch')) if isinstance(ob.get('info'), dict) else False
@@ -302,6 +304,10 @@ def main(argv=None):
                         n_dis += 1   # decided (as a listed finding)
                     else:
                         violations.append({'cfg': cfg, 'fkey': fk, 'ob': ob})
+                elif fk in confirmed_keys:
+                    # the same finding (same key) is already established by a counterexample that did replay on this
+                    # configuration; this additional model did not reproduce on floats and is not reported
+                    n_dis += 1
                 else:
                     inconclusive.append({'cfg': cfg.get('key'), 'why': 'counterexample for %s did not replay: %s' % (ob['name'], rp.get('why')), 'model': ob.get('model')})
             else:
